@@ -44,6 +44,7 @@ type locState struct {
 
 type rwState struct {
 	writer  *thread
+	pending map[*thread]bool // writers that have called Lock and wait
 	readers map[*thread]int
 	relW    vclock // released by writers
 	relR    vclock // released by readers
@@ -230,7 +231,7 @@ func inPar(m *Machine, fr *frame, fn *ssa.Function, a []Value) Value {
 func (m *Machine) rw(p *Value) *rwState {
 	s := m.par.locks[p]
 	if s == nil {
-		s = &rwState{readers: map[*thread]int{}, relW: vclock{}, relR: vclock{}}
+		s = &rwState{readers: map[*thread]int{}, pending: map[*thread]bool{}, relW: vclock{}, relR: vclock{}}
 		m.par.locks[p] = s
 	}
 	return s
@@ -242,7 +243,11 @@ func inLock(m *Machine, fr *frame, fn *ssa.Function, a []Value) Value {
 	}
 	s := m.rw(a[0].(*Value))
 	t := m.par.cur
+	// a writer that has called Lock blocks new readers until it has had its turn (sync.RWMutex:
+	// "a blocked Lock call excludes new readers from acquiring the lock")
+	s.pending[t] = true
 	m.yield(func() bool { return s.writer == nil && len(s.readers) == 0 })
+	delete(s.pending, t)
 	s.writer = t
 	t.vc.join(s.relW)
 	t.vc.join(s.relR)
@@ -266,7 +271,7 @@ func inRLock(m *Machine, fr *frame, fn *ssa.Function, a []Value) Value {
 	}
 	s := m.rw(a[0].(*Value))
 	t := m.par.cur
-	m.yield(func() bool { return s.writer == nil })
+	m.yield(func() bool { return s.writer == nil && len(s.pending) == 0 })
 	s.readers[t]++
 	t.vc.join(s.relW)
 	return nil
